@@ -7,6 +7,7 @@ import Driver.Drv.GetCFilter
 import Driver.Drv.Import
 import Driver.Drv.Lru
 import Driver.Drv.PushTx
+import Driver.Drv.Rescan
 import Driver.Drv.Store
 import Driver.Drv.Subs
 namespace Driver
@@ -21,6 +22,7 @@ def drivers : List (String × CaseFn) := [
   ("import", Driver.Drv.Import.runCase),
   ("lru", Driver.Drv.Lru.runCase),
   ("pushtx", Driver.Drv.PushTx.runCase),
+  ("rescan", Driver.Drv.Rescan.runCase),
   ("store", Driver.Drv.Store.runCase),
   ("subs", Driver.Drv.Subs.runCase)]
 
